@@ -1,6 +1,11 @@
 """C18 - Parameter extraction returns exactly the requested table's rows and columns."""
+import contextlib
 import csv
 import io
+import json
+import os
+import shutil
+import tempfile
 
 from hypothesis import strategies as st
 
@@ -132,8 +137,36 @@ def build(case, expanded, with_trailer=True):
 
 
 def read_rows(case, data, expanded):
-    return list(mciipm.IpmParamReader(io.BytesIO(data), case['wanted'], encoding=case['codec'], param_config=case['param_config'],
-                                      expanded=expanded, blocked=case['blocked']))
+    kw = dict(param_config=case['param_config'], expanded=expanded, blocked=case['blocked'])
+    if not (case['codec'] == 'latin_1' and len(data) % 2):
+        kw['encoding'] = case['codec']          # latin_1 is the documented default: half of those cases rely on it
+    return list(mciipm.IpmParamReader(io.BytesIO(data), case['wanted'], **kw))
+
+
+def csv_via_cli(case, data, expanded):
+    """mci_ipm_param_to_csv through its argument parser and cli_run on real files"""
+    d = tempfile.mkdtemp(prefix='cardutil-verif-c18-')
+    try:
+        src = os.path.join(d, 'in.par')
+        dst = os.path.join(d, 'out.csv')
+        with open(src, 'wb') as f:
+            f.write(data)
+        argv = [src, case['wanted'], '-o', dst, '--in-encoding', case['codec'], '--out-encoding', 'utf8']
+        if not case['blocked']:
+            argv.append('--no1014blocking')
+        if expanded:
+            argv.append('--expanded')
+        if case['param_config'] is not None:
+            cfgfile = os.path.join(d, 'cardutil.json')
+            with open(cfgfile, 'w') as f:
+                json.dump({'mci_parameter_tables': case['param_config']}, f)
+            argv += ['--config-file', cfgfile]
+        with contextlib.redirect_stdout(io.StringIO()):
+            mci_ipm_param_to_csv.cli_run(**vars(mci_ipm_param_to_csv.cli_parser().parse_args(argv)))
+        with open(dst, encoding='utf8', newline='') as f:
+            return f.read()
+    finally:
+        shutil.rmtree(d, ignore_errors=True)
 
 
 def check(case):
@@ -162,6 +195,14 @@ def check(case):
         back = list(csv.DictReader(io.StringIO(out.getvalue())))
         if back != expected:
             return 'csv-differs:' + form, f'CSV of the {form} file does not parse back to the extracted rows: ' + _diff(expected, back)
+        if len(data) % 5 == 0:
+            try:
+                text = csv_via_cli(case, data, expanded)
+            except Exception as ex:
+                return exc_sig('csv-cli-raises:' + form, ex), f'mci_ipm_param_to_csv command entry point raised {ex!r} on a {form} file'
+            back = list(csv.DictReader(io.StringIO(text)))
+            if back != expected:
+                return 'csv-cli-differs:' + form, f'CSV written by the command entry point for the {form} file differs: ' + _diff(expected, back)
     cols = list(case['layout'])
     a = [{c: r[c] for c in cols} for r in results[True]]
     b = [{c: r[c] for c in cols} for r in results[False]]
